@@ -41,6 +41,8 @@ def polarity(t):
             if base is not None and base > (0 if op == "lshift" else 1):
                 return polarity(a[1])
             return None
+        if op == "rshift":
+            return polarity(a[1])  # (k >> s) & 1: column j holds bit s_j, so the column significance follows the shift amounts
         if op == "bitand":
             # bit extraction: the mask operand carries the site axis
             pa, pb = polarity(a[0]), polarity(a[1])
@@ -86,7 +88,16 @@ def row_polarity(t):
             xa = x.single_atom()
             if xa is not None and isinstance(xa, T.App) and xa.op == "index" and "none" in xa.args[1]:
                 return polarity(xa.args[0])
+        for x in at.args:
+            if hasattr(x, "single_atom") and x.single_atom() is not None:
+                r = row_polarity(x)
+                if r is not None:
+                    return r
         return None
+    if at.op == "rshift":
+        return row_polarity(at.args[0])
+    if at.op == "unsq" and len(at.args) >= 2 and at.args[1] in (-1, 1):
+        return polarity(at.args[0])  # k[:, None]: the rows follow k
     return None
 
 
@@ -97,29 +108,31 @@ def run(ck):
     sv = prog.method(NS, "subspace_vector")
     conv = prog.func("qucumber.utils.unitaries", "_convert_basis_element_to_index")
     # ------------------------------------------------------------------ R1 big-endian agreement
-    with ck.guard("C19.R1", "generate_hilbert_space", ghs.site()):
-        def th(it):
+    for form in ("", "/device given"):
+      with ck.guard("C19.R1", "generate_hilbert_space" + form, ghs.site()):
+        def th(it, form=form):
             s = make_state(it, "PositiveWaveFunction")
-            return call(it, s, "generate_hilbert_space", api.intsym("n"))
+            kw = {"device": VConst("cpu")} if form else {}
+            return call(it, s, "generate_hilbert_space", api.intsym("n"), **kw)
 
         rets = [p for p in paths_of(prog, th) if p.outcome == "return"]
-        ck.check(len(rets) >= 1, "C19.R1", "generate_hilbert_space:returns", ghs.site(), "no returning path")
+        ck.check(len(rets) >= 1, "C19.R1", "generate_hilbert_space%s:returns" % form, ghs.site(), "no returning path")
         for p in rets:
             if not isinstance(p.value, VTens):
-                ck.undecided("C19.R1", "generate_hilbert_space:tensor result", ghs.site(), "the result is not a tensor value the analyser can follow: %r" % (p.value,))
+                ck.undecided("C19.R1", "generate_hilbert_space%s:" % form + "tensor result", ghs.site(), "the result is not a tensor value the analyser can follow: %r" % (p.value,))
                 continue
             t = p.value.term
             pc, pr = polarity(t), row_polarity(t)
-            ck.check(True if pc == DESC else (False if pc == ASC else None), "C19.R1", "generate_hilbert_space:site 0 is the most significant bit", ghs.site(),
+            ck.check(True if pc == DESC else (False if pc == ASC else None), "C19.R1", "generate_hilbert_space%s:" % form + "site 0 is the most significant bit", ghs.site(),
                      "bit columns have %s significance from site 0 (expected descending = big-endian): %r" % (pc, t), polarity=pc)
-            ck.check(True if pr == ASC else (False if pr == DESC else None), "C19.R1", "generate_hilbert_space:row k is integer k", ghs.site(),
+            ck.check(True if pr == ASC else (False if pr == DESC else None), "C19.R1", "generate_hilbert_space%s:" % form + "row k is integer k", ghs.site(),
                      "rows are enumerated in %s integer order (expected ascending)" % pr)
             sh = p.value.shape
             okshape = sh is not None and len(sh) == 2 and sh[1] == "n"
             unknown = sh is None or (len(sh) == 2 and sh[1] == "?")
-            ck.check(True if okshape else (None if unknown else False), "C19.R1", "generate_hilbert_space:shape", ghs.site(), "space has shape %s, expected (2^n, n)" % (sh,))
+            ck.check(True if okshape else (None if unknown else False), "C19.R1", "generate_hilbert_space%s:" % form + "shape", ghs.site(), "space has shape %s, expected (2^n, n)" % (sh,))
             sy = t.syms()
-            ck.check("n" in sy, "C19.R1", "generate_hilbert_space:uses size", ghs.site(), "the requested size does not determine the space")
+            ck.check("n" in sy, "C19.R1", "generate_hilbert_space%s:" % form + "uses size", ghs.site(), "the requested size does not determine the space")
     with ck.guard("C19.R1", "generate_hilbert_space/fresh", ghs.site()):
         def thf(it):
             s = make_state(it, "PositiveWaveFunction")
@@ -212,7 +225,8 @@ def run(ck):
                 return n0
 
             paths = paths_of(prog, th4)
-            raised = [p for p in paths if p.outcome == "raise"]
+            # the refusal is the ValueError path; an `assert` on an internal invariant that the analyser cannot evaluate is another matter
+            raised = [p for p in paths if p.outcome == "raise" and not (p.value.exc_name == "AssertionError" and not getattr(p.value, "definite_bug", False))]
             ck.check(len(raised) == 1 and raised[0].value.exc_name == "ValueError", "C19.R2", "too large -> ValueError/" + form, ghs.site(),
                      "no ValueError path for an oversized space (%s): the whole space would be allocated" % form)
             for p in raised:
